@@ -20,13 +20,95 @@ def run_phase(sim, out_path, phase_inputs=None, **opts):
         output=out_path,
         write_command_line_header=False,
     )
+    via_cli = opts.pop("via_cli", False)
     kw.update(opts)
+    if via_cli:
+        return _run_phase_cli(kw)
     try:
         run_whatshap(**kw)
     except CommandLineError as e:
         return "cle", launch.end(), str(e)
     except Exception:
         return "crash", launch.end(), traceback.format_exc()[-2500:]
+    return "ok", launch.end(), ""
+
+
+def phase_argv(kw):
+    """The `whatshap phase ...` command line equivalent to run_whatshap(**kw); option names are taken from whatshap's own
+    argument parser (by dest), so only values that differ from 'not given' are spelled out."""
+    import argparse
+
+    from whatshap.cli import phase as ph
+
+    parser = argparse.ArgumentParser()
+    ph.add_arguments(parser)
+    by_dest = {}
+    for a in parser._actions:
+        if a.option_strings:
+            by_dest.setdefault(a.dest, a)
+    argv = ["phase"]
+    for key, val in kw.items():
+        if key in ("variant_file", "phase_input_files", "write_command_line_header"):
+            continue
+        if key == "reference":
+            if val is False:
+                argv.append("--no-reference")
+            elif val:
+                argv += ["--reference", val]
+            continue
+        a = by_dest[key]
+        opt = a.option_strings[-1]
+        if isinstance(a, argparse._StoreTrueAction):
+            if val:
+                argv.append(opt)
+        elif isinstance(a, argparse._StoreFalseAction):
+            if not val:
+                argv.append(opt)
+        elif isinstance(a, argparse._AppendAction):
+            for x in val or []:
+                argv += [opt, str(x)]
+        elif val is not None:
+            argv += [opt, str(val)]
+    return argv + [kw["variant_file"]] + list(kw["phase_input_files"])
+
+
+def _run_phase_cli(kw):
+    """Same run through whatshap's command-line entry point (argument parser, defaults, validate, main)."""
+    import logging
+
+    import whatshap.__main__ as wm
+
+    argv = phase_argv(kw)
+    errors = []
+
+    class _Capture(logging.Handler):
+        def emit(self, record):
+            errors.append(record.getMessage())
+
+    root = logging.getLogger()
+    cap = _Capture(level=logging.ERROR)
+    root.addHandler(cap)
+    level = root.manager.disable
+    logging.disable(logging.WARNING)  # let ERROR records through to the capture handler only
+    orig_setup = wm.setup_logging
+    wm.setup_logging = lambda debug: None  # no stderr handler per run
+    try:
+        wm.main(argv)
+    except SystemExit as e:
+        if e.code not in (0, None):
+            return "cle", launch.end(), "whatshap exited %r: %s (argv %r)" % (e.code, " | ".join(errors)[-800:], argv)
+    except Exception:
+        return "crash", launch.end(), traceback.format_exc()[-2500:]
+    finally:
+        wm.setup_logging = orig_setup
+        root.removeHandler(cap)
+        logging.disable(level)
+    # the command line always records itself in the header; drop that line like write_command_line_header=False does
+    out = kw["output"]
+    with open(out) as fh:
+        lines = [l for l in fh if not l.startswith("##commandline=")]
+    with open(out, "w") as fh:
+        fh.writelines(lines)
     return "ok", launch.end(), ""
 
 
